@@ -1,3 +1,4 @@
+import math
 from typing import Callable, Optional
 
 
@@ -54,14 +55,16 @@ class BrentsRootFinder:
             dx = p / q
 
         # Use bisection instead of interpolation
-        # if the interpolation is not within bounds.
+        # if the interpolation is not within bounds
+        # (or overflowed: every comparison with nan is False).
         delta = abs(2 * self.epsilon * self.b)
         adx = abs(dx)
         delta_bc = abs(self.b - self.c)
         delta_cd = abs(self.c - self.d)
         delta_ab = self.a - self.b
         if (
-            (adx >= abs(3 * delta_ab / 4) or dx * delta_ab < 0)
+            math.isnan(dx)
+            or (adx >= abs(3 * delta_ab / 4) or dx * delta_ab < 0)
             or (self.bisection and adx >= delta_bc / 2)
             or (not self.bisection and adx >= delta_cd / 2)
             or (self.bisection and delta_bc < delta)
